@@ -23,6 +23,17 @@ def operation_classes(pm: ProgramModel) -> list[ClassInfo]:
         if "abstractmethod" in ex.decorators() or "abstractmethod" in \
                 (c.methods["__init__"].decorators() if "__init__" in c.methods else []):
             continue
+        # an operation implements an interface of the framework (a base defined outside the package); a helper or mixin
+        # of the package that merely has execute / get_result is not one
+        plain = {"object", "ABC", "Generic", "Protocol", "Enum"}
+        foreign = False
+        for k in pm.mro(c):
+            for b in k.bases:
+                rb = pm.resolve_base(k, b)
+                if (rb is None and b.split(".")[-1].split("[")[0] not in plain) or (rb is not None and rb.unit.env):
+                    foreign = True
+        if not foreign:
+            continue
         out.append(c)
     return sorted(out, key=lambda c: c.name)
 
